@@ -24,7 +24,7 @@ Definition history (w : rw) (now : Z) : Z * Z :=
 
 Definition excess2 (accepts total : Z) : Z := 2 * (total - protection) - k2 * accepts.
 
-Inductive outcome := OK | AcceptableErr | UnacceptableErr | Panics.
+Inductive outcome := OK | AcceptableErr | UnacceptableErr | Panics | PanicsNil.   (* panic(v), panic(nil) *)
 (* the caller's acceptable-predicate, as a table over the outcomes of req: any predicate is some such
    table; the driver uses these four.  A predicate may REJECT a nil error (it judges something else,
    e.g. a captured response code) and may accept non-nil errors. *)
@@ -36,7 +36,7 @@ Inductive pred :=
 
 Definition pred_ok (p : pred) (o : outcome) : bool :=
   match o, p with
-  | Panics, _ => false                                  (* the predicate is not consulted: googlebreaker.go:71-76 *)
+  | (Panics | PanicsNil), _ => false                    (* the predicate is not consulted: googlebreaker.go doReq, deferred mark *)
   | OK, (PNilOrAcc | PAll) => true
   | OK, _ => false
   | AcceptableErr, PNone => false
